@@ -109,3 +109,6 @@ for e in all_entries():
         continue
     OBLIGATIONS.append(entry_obl("rewrite", rewrite, e, extra={"kind": I(0, 2), "pos": I(0, 5), "x": I(1, 254), "sp": I(0, 3), "with_spec": B},
                                  narrow=True, budget=90, extra_shards=sh))
+
+# quick tier: entries added for other properties' sake run in the thorough tier only here
+demote(OBLIGATIONS, ['seq_optc', 'seq_hitags', 'seq_wide', 'seqof_choice_cons', 'choice_cons'])
